@@ -114,7 +114,8 @@ let replay (c : A.config) (evs : obs array) (err_final : bool) =
         | [] -> Fail
         | (s', e) :: r -> if silent e then (match go s' n with Ok l -> Ok ((A.TDriver, e, s) :: l) | Fail -> try_list r) else try_list r in
       try_list (dsucc s) in
-  (go (A.init c) 0, !deepest, !deepest_pc)
+  let r = go (A.init c) 0 in       (* (tuple components are evaluated right to left) *)
+  (r, !deepest, !deepest_pc)
 
 let () =
   let cfg = ref None and evs = ref [] in
